@@ -388,7 +388,7 @@ impl Components {
             }
 
             // Elimina componentes de auxiliares existentes
-            self.data.retain(|c| !c.is_aux());
+            self.data.retain(|c| !(c.is_aux() && c.has_id(id)));
 
             // Incorpora nuevos auxiliares con reparto calculado por servicios
             for service in &out_services {
